@@ -194,4 +194,117 @@ theorem gnDoc_argPar (d : Doc) (x0 : X) (h0 : Inv x0) : ArgParL down Inv (gnDoc 
   ArgParL.flatMap down Inv _ d.defs fun df _ => gnDef_argPar down Inv hstep df x0 h0
 
 end
+
+/-! ### the nodes of an argument's value are listed with it -/
+
+section
+variable {X : Type} (down : Node → X → X)
+
+/-- every argument node of the list has the nodes of its value in the list -/
+def ArgKidsL (l : List (Node × X)) : Prop :=
+  ∀ p ∈ l, ∀ a, p.1 = Node.argument a → ∀ q ∈ gnValue down p.2 a.value, q ∈ l
+
+theorem ArgKidsL.nil : ArgKidsL down ([] : List (Node × X)) := fun _ hp => absurd hp List.not_mem_nil
+
+theorem ArgKidsL.of_noArg {l : List (Node × X)} (h : NoArgL l) : ArgKidsL down l :=
+  fun p hp a e => absurd e (h p hp a)
+
+theorem ArgKidsL.append {a b : List (Node × X)} (ha : ArgKidsL down a) (hb : ArgKidsL down b) :
+    ArgKidsL down (a ++ b) := by
+  intro p hp x e q hq
+  rcases List.mem_append.mp hp with h | h
+  · exact List.mem_append_left _ (ha p h x e q hq)
+  · exact List.mem_append_right _ (hb p h x e q hq)
+
+theorem ArgKidsL.flatMap {α} (f : α → List (Node × X)) (as : List α) (h : ∀ a ∈ as, ArgKidsL down (f a)) :
+    ArgKidsL down (as.flatMap f) := by
+  induction as with
+  | nil => exact ArgKidsL.nil down
+  | cons a as ih =>
+    rw [List.flatMap_cons]
+    exact ArgKidsL.append down (h a List.mem_cons_self) (ih fun b hb => h b (List.mem_cons_of_mem _ hb))
+
+theorem ArgKidsL.cons {n : Node} {c : X} {rest : List (Node × X)} (hn : ∀ a, n ≠ Node.argument a)
+    (hr : ArgKidsL down rest) : ArgKidsL down ((n, c) :: rest) := by
+  intro p hp x e q hq
+  rcases List.mem_cons.mp hp with h | h
+  · subst h; exact absurd e (hn x)
+  · exact List.mem_cons_of_mem _ (hr p h x e q hq)
+
+theorem gnArgs_kids (as : List Arg) (x : X) : ArgKidsL down (gnArgs down x as) := by
+  unfold gnArgs
+  apply ArgKidsL.flatMap
+  intro b _ p hp a e q hq
+  rw [gnArg] at hp ⊢
+  rcases List.mem_cons.mp hp with h | h
+  · subst h
+    have : b = a := by simpa using e
+    subst this
+    exact List.mem_cons_of_mem _ hq
+  · exact absurd e (gnValue_noArg down b.value _ p h a)
+
+theorem gnDirs_kids (ds : List Dir) (x : X) : ArgKidsL down (gnDirs down x ds) := by
+  unfold gnDirs
+  apply ArgKidsL.flatMap
+  intro d _
+  rw [gnDir]
+  exact ArgKidsL.cons down (fun _ h => by cases h) (gnArgs_kids down d.args _)
+
+mutual
+theorem gnSel_kids : ∀ (s : Sel) (x : X), ArgKidsL down (gnSel down x s)
+  | .field al name args dirs true id sub, x => by
+    rw [gnSel]
+    simp only [↓reduceIte]
+    exact ArgKidsL.cons down (fun _ h => by cases h)
+      (ArgKidsL.append down (ArgKidsL.append down (gnArgs_kids down args _) (gnDirs_kids down dirs _))
+        (ArgKidsL.cons down (fun _ h => by cases h) (gnSels_kids sub _)))
+  | .field al name args dirs false id sub, x => by
+    rw [gnSel]
+    simp only [Bool.false_eq_true, ↓reduceIte]
+    exact ArgKidsL.cons down (fun _ h => by cases h)
+      (ArgKidsL.append down (ArgKidsL.append down (gnArgs_kids down args _) (gnDirs_kids down dirs _))
+        (ArgKidsL.nil down))
+  | .spread name dirs, x => by
+    rw [gnSel]
+    exact ArgKidsL.cons down (fun _ h => by cases h) (gnDirs_kids down dirs _)
+  | .inline on dirs id sub, x => by
+    rw [gnSel]
+    exact ArgKidsL.cons down (fun _ h => by cases h)
+      (ArgKidsL.append down (gnDirs_kids down dirs _)
+        (ArgKidsL.cons down (fun _ h => by cases h) (gnSels_kids sub _)))
+theorem gnSels_kids : ∀ (ss : List Sel) (x : X), ArgKidsL down (gnSels down x ss)
+  | [], x => by rw [gnSels]; exact ArgKidsL.nil down
+  | s :: ss, x => by rw [gnSels]; exact ArgKidsL.append down (gnSel_kids s x) (gnSels_kids ss x)
+end
+
+theorem gnVarDef_kids (v : VarDef) (x : X) : ArgKidsL down (gnVarDef down x v) := by
+  rw [gnVarDef]
+  refine ArgKidsL.cons down (fun _ h => by cases h) (ArgKidsL.append down ?_ ?_)
+  · cases v.default with
+    | none => exact ArgKidsL.nil down
+    | some dv => exact ArgKidsL.of_noArg down (gnValue_noArg down dv _)
+  · exact ArgKidsL.cons down (fun _ h => by cases h) (gnDirs_kids down v.dirs _)
+
+theorem gnDef_kids (d : Def) (x : X) : ArgKidsL down (gnDef down x d) := by
+  cases d with
+  | op kind name vars dirs id sels =>
+    rw [gnDef]
+    exact ArgKidsL.cons down (fun _ h => by cases h)
+      (ArgKidsL.append down
+        (ArgKidsL.append down (ArgKidsL.flatMap down _ vars fun v _ => gnVarDef_kids down v _) (gnDirs_kids down dirs _))
+        (ArgKidsL.cons down (fun _ h => by cases h) (gnSels_kids down sels _)))
+  | frag name on dirs id sels =>
+    rw [gnDef]
+    exact ArgKidsL.cons down (fun _ h => by cases h)
+      (ArgKidsL.append down (gnDirs_kids down dirs _)
+        (ArgKidsL.cons down (fun _ h => by cases h) (gnSels_kids down sels _)))
+  | ts a b =>
+    rw [gnDef]
+    exact ArgKidsL.cons down (fun _ h => by cases h) (ArgKidsL.nil down)
+
+/-- **the nodes of the value of every listed argument are listed** -/
+theorem gnDoc_kids (d : Doc) (x0 : X) : ArgKidsL down (gnDoc down x0 d) :=
+  ArgKidsL.flatMap down _ d.defs fun df _ => gnDef_kids down df x0
+
+end
 end PyGql.Validate.Spec
